@@ -3,6 +3,7 @@ import BppModel.OptimSpec
 import BppModel.OptimOneDim
 import BppModel.OptimMulti
 import BppModel.OptimLine
+import BppModel.OptimMeta
 /-
 Driver for C10 (optimisers).  Script grammar: see harness/C10.cpp.
 
@@ -114,6 +115,7 @@ inductive OptSt
   | powell (s : St FnF (Powell Float) Float)
   | cg (s : St FnF (Cg Float) Float)
   | bfgs (s : St FnF (Bfgs Float) Float)
+  | metaopt (s : St FnF (Meta Float) Float)
 deriving Inhabited
 
 structure Hint where
@@ -170,6 +172,7 @@ def coreOf : OptSt → Option (Core Float × FnF)
   | .powell s => some (s.core, s.fn)
   | .cg s => some (s.core, s.fn)
   | .bfgs s => some (s.core, s.fn)
+  | .metaopt s => some (s.core, s.fn)
   | _ => none
 
 def clearLog : OptSt → OptSt
@@ -183,6 +186,7 @@ def clearLog : OptSt → OptSt
   | .powell s => .powell { s with fn := { s.fn with log := [] } }
   | .cg s => .cg { s with fn := { s.fn with log := [] } }
   | .bfgs s => .bfgs { s with fn := { s.fn with log := [] } }
+  | .metaopt s => .metaopt { s with fn := { s.fn with log := [] } }
   | o => o
 
 def mapCore (f : Core Float → Core Float) : OptSt → OptSt
@@ -196,6 +200,7 @@ def mapCore (f : Core Float → Core Float) : OptSt → OptSt
   | .powell s => .powell { s with core := f s.core }
   | .cg s => .cg { s with core := f s.core }
   | .bfgs s => .bfgs { s with core := f s.core }
+  | .metaopt s => .metaopt { s with core := f s.core }
   | o => o
 
 def logStr (fn : FnF) : String :=
@@ -249,6 +254,15 @@ def mkOpt (s : S) : OptSt :=
     .cg { core := mkCore s.pol s.mx (tol 0.000001) 0, fn := s.fn0, ext := Cg.fresh }
   | "bfgs", _ =>
     .bfgs { core := mkCore s.pol s.mx (tol 0.000001) 0, fn := s.fn0, ext := Bfgs.fresh }
+  | "meta", ty :: _ =>
+    -- first half of the function's parameters: coordinate-wise Brent; second half: BFGS (harness/C10.cpp)
+    let h := (s.n + 1) / 2
+    let ext : Meta Float :=
+      { n := 2, full := ty == "full", g1 := List.range h, g2 := (List.range (s.n - h)).map (· + h), p1 := [], p2 := [],
+        c1 := mkCore .keep 1000000 0.000001 0, e1 := Simple.fresh,
+        c2 := mkCore .keep 1000000 0.000001 0, e2 := Bfgs.fresh,
+        stepCount := 0, initialValue := -1, precisionStep := -1 }
+    .metaopt { core := mkCore s.pol s.mx (tol 0.000001) 0, fn := s.fn0, ext := ext }
   | _, _ => .unmodelled
 
 /-- result of a model call on the optimiser -/
@@ -273,6 +287,7 @@ def runInit (s : S) (pl : PList Float) : MRes :=
   | .powell st => w .powell ((powellAlgo I fuelOf).init st pl)
   | .cg st => w .cg ((cgAlgo I fuelOf).init st pl)
   | .bfgs st => w .bfgs ((bfgsAlgo I fuelOf).init st pl)
+  | .metaopt st => w .metaopt ((metaAlgo I Float.log10 fuelOf).init st pl)
   | o => .ok o none
 
 def runStep (s : S) : MRes :=
@@ -292,6 +307,7 @@ def runStep (s : S) : MRes :=
   | .powell st => w .powell ((powellAlgo I fuelOf).step st)
   | .cg st => w .cg ((cgAlgo I fuelOf).step st)
   | .bfgs st => w .bfgs ((bfgsAlgo I fuelOf).step st)
+  | .metaopt st => w .metaopt ((metaAlgo I Float.log10 fuelOf).step st)
   | o => .ok o none
 
 def runOptimize (s : S) : MRes :=
@@ -311,6 +327,7 @@ def runOptimize (s : S) : MRes :=
   | .powell st => w .powell (powellOptimize I fuelOf st)
   | .cg st => w .cg ((cgAlgo I fuelOf).optimize fuelOf st)
   | .bfgs st => w .bfgs ((bfgsAlgo I fuelOf).optimize fuelOf st)
+  | .metaopt st => w .metaopt ((metaAlgo I Float.log10 fuelOf).optimize fuelOf st)
   | o => .ok o none
 
 def modelled (o : OptSt) : Bool :=
@@ -424,7 +441,7 @@ def verdictRun (s : S) (o : String) (t : List String) : S × String :=
   if nbackOk && !Spec.descent cur (s.curInit.getD (1.0 / 0.0)) then (s1, "FAIL:descent_from_init") else
   if !Spec.exitReason s.mx nb tolR then (s1, "FAIL:exit_reason") else
   if steps ≥ 2 && !Spec.budget s.mx nb (some (pn + 1).toNat) then (s1, "FAIL:budget") else
-  if steps ≥ 2 && pe > (s.mx : Int) then
+  if steps ≥ 2 && !Spec.budgetCalls s.mx pe.toNat then
     (s1, if lineMinKinds.contains s.kind then "FAIL:budget_calls_undercount" else "FAIL:budget_calls") else
   -- convergence on strictly convex quadratics, constraints never active, a real budget
   match s.hint with
